@@ -66,6 +66,22 @@ fn main() {
             println!("selftest ok");
         }
         "cc" => cmd_cc(&args[2..]),
+        "pinned" => {
+            // developer aid: which of the repository's test programs the harness front end reads
+            let all = gen4::pinned_programs();
+            let ok = gen4::f0_pinned();
+            println!("pinned programs: {} extracted, {} become F0.pinned cases", all.len(), ok.len());
+            if args.get(2).map(|s| s == "-v").unwrap_or(false) {
+                for (n, src) in &all {
+                    let r = std::panic::catch_unwind(|| cparse::parse_program(src));
+                    match r {
+                        Ok(Ok(_)) => println!("  ok   {}", n),
+                        Ok(Err(e)) => println!("  skip {}: {}", n, e),
+                        Err(_) => println!("  skip {}: front end panicked", n),
+                    }
+                }
+            }
+        }
         "count" => {
             let c = props::get(&args[2]).expect("unknown property");
             for t in [Tier::Quick, Tier::Thorough] {
